@@ -14,6 +14,7 @@ import Pandora.Proofs.C19Vars
 import Pandora.Bridge.C19
 import Pandora.Proofs.C19Run
 import Pandora.Bridge.C19Run
+import Pandora.Proofs.C19R6
 
 namespace Pandora.Props.C19
 open Pandora.Model.C10 Pandora.Model.C19 Pandora.Proofs.C19
@@ -622,7 +623,7 @@ theorem C19_discard_overflow (discard : Bool) (tokens : List (Bool × GunShot)) 
     simp [tokensOf, List.map_map, Function.comp_def]
 
 /-- WHEN a token is dropped: with a clock that does not run backwards, the waiter of the current source
-(`Bridge.C19.waiterWaitStmts_eq`, `waiterIsSlowDownStmts_eq`) finds a token overdue exactly when the instance asks for it
+(regenerated as functions: `Gen.Waiter.Wait` / `IsSlowDown`, `Bridge.Waiter.Wait_eq`, see `C19_slow_answer_costs_only_late_tokens`) finds a token overdue exactly when the instance asks for it
 `MaxOverdueDuration` (the current constant) or more after its time — whatever the cached clock reading was; and a run in
 which the target answers fast enough for every token to be asked for in time is the same run with and without
 `discard_overflow`: the option cannot cost a shot unless the target made the instance late. -/
@@ -886,5 +887,79 @@ example : scenarioOps false [⟨"a", .received 200 .ok⟩, ⟨"b", .received 200
 -- C19_discard_only_when_late: due at 1 s, asked for at 3.5 s (the previous answer took that long): overdue; at 2.9 s: not
 example : (tokenAt 1000000000 0 3500000000 {reports := []}).slowDown = true ∧
     (tokenAt 1000000000 0 2900000000 {reports := []}).slowDown = false := by decide
+
+/-! ## round 6: what a slow answer costs — composition with the waiter of the current source
+
+`Gen.Waiter` (gen area `waiter`, owned by C04) regenerates `(*Waiter).Wait`, `IsSlowDown` and one pass of the loop of
+`instance.Run` as Lean FUNCTIONS from core/coreutil/waiter.go and core/engine/instance.go; `Bridge.Waiter` proves them equal
+to C04's model. The theorem below is stated over those definitions (imported read-only), not over a copy. -/
+
+/-- A slow answer costs exactly the tokens the instance is late for, never the ones after them. For the waiter and the
+loop of the CURRENT source (conjuncts 1-3: the regenerated functions are C04's model, the `discarded` sample of this model
+carries the regenerated constants), EVERY waiter state, every token and every clock reading:
+* the `overdue` a call of `Wait` leaves behind is a function of the token, the cached reading and the clock alone — what
+  the waiter remembered of EARLIER tokens (a late one before) is not an argument (conjunct 4): state that survived from
+  one token to the next would make one slow answer cost every later shot;
+* with a clock that does not run backwards the token is found overdue exactly when the instance asks for it
+  `MaxOverdueDuration` or more after its time (conjunct 5);
+* for every history of passes of the loop (any tokens, response times, cancellations, `ClockOK`): a `discarded` sample is
+  reported only with `discard_overflow` on and only for a token that is `MaxOverdueDuration` late at that moment
+  (conjunct 6) — a token asked for in time is SHOT, whatever the target did to the requests before it;
+* the samples the aggregator receives for the whole loop are, token by token, the samples of the token's shot or the one
+  `discarded` sample (`tokenSamples`), and the loop is C19's `instanceRunSched` on these tokens: all theorems about it
+  (`C19_discard_overflow`) apply to the loop of the current source (conjuncts 7, 8). -/
+theorem C19_slow_answer_costs_only_late_tokens :
+    (∀ (w : Model.C04.Waiter) (e : Model.C04.Env),
+      Gen.Waiter.Wait w e = ((Model.C04.wait w e).w, (Model.C04.wait w e).ok)) ∧
+    (∀ (d : Bool) (w : Model.C04.Waiter) (it : Model.C04.Iter),
+      Gen.Waiter.iteration d w it = Model.C04.iteration .fresh d w it) ∧
+    (discardedSample.tags = Gen.Waiter.DiscardedShootTag ∧ (discardedSample.net : Int) = Gen.Waiter.DiscardedShootCodeError ∧
+      maxOverdue = Gen.Waiter.MaxOverdueDuration) ∧
+    (∀ (w : Model.C04.Waiter) (e : Model.C04.Env), (Gen.Waiter.Wait w e).1.overdue = R6.overdueAfter w.lastNow e) ∧
+    (∀ (w : Model.C04.Waiter) (e : Model.C04.Env) (next : Int), e.ctxDone = false → e.tok = some next → w.lastNow ≤ e.now →
+      (Gen.Waiter.IsSlowDown (Gen.Waiter.Wait w e).1 false = true ↔ e.now - next ≥ Gen.Waiter.MaxOverdueDuration)) ∧
+    (∀ (d : Bool) (w : Model.C04.Waiter) (h : List Model.C04.Iter), Proofs.C04.ClockOK w h →
+      ∀ it s, Model.C04.Ev.discard it s ∈ (Model.C04.runLoop .fresh d w h).1 →
+        d = true ∧ ∃ next, it.env.tok = some next ∧ Gen.Waiter.MaxOverdueDuration ≤ it.env.ret - next) ∧
+    (∀ (shotOf : Model.C04.Iter → ShotResult) (d : Bool) (w : Model.C04.Waiter) (h : List Model.C04.Iter),
+      R6.samplesOfEvents shotOf (Model.C04.runLoop .fresh d w h).1 =
+        ((R6.drawnTokens shotOf w h).map (tokenSamples d)).flatten) ∧
+    (∀ (shotOf : Model.C04.Iter → ShotResult) (d : Bool) (w : Model.C04.Waiter) (h : List Model.C04.Iter),
+      (∀ t ∈ R6.drawnTokens shotOf w h, shootCond d t.slowDown = true → t.shot.panicked = false) →
+      (instanceRunSched d (R6.drawnTokens shotOf w h)).result = .finished ∧
+      (instanceRunSched d (R6.drawnTokens shotOf w h)).samples =
+        R6.samplesOfEvents shotOf (Model.C04.runLoop .fresh d w h).1) := by
+  refine ⟨Bridge.Waiter.Wait_eq, Bridge.Waiter.iteration_eq, ⟨rfl, rfl, rfl⟩, ?_, ?_, ?_, R6.samples_eq, ?_⟩
+  · intro w e
+    rw [Bridge.Waiter.Wait_eq]
+    exact R6.wait_overdue w e
+  · intro w e next hc ht hl
+    rw [Bridge.Waiter.IsSlowDown_eq, Bridge.Waiter.Wait_eq, Bridge.Waiter.MaxOverdueDuration_eq]
+    simp only [Model.C04.isSlowDown, Model.C04.slowCond, R6.wait_overdue, R6.overdueAfter_eq w.lastNow e next hc ht]
+    have := isSlowDown_iff next w.lastNow e.now hl
+    simp only [isSlowDown, maxOverdue] at this
+    simpa [Model.C04.maxOverdue] using this
+  · intro d w h hc it s hev
+    rw [Bridge.Waiter.MaxOverdueDuration_eq]
+    exact R6.discard_only_late d w h hc it s hev
+  · intro shotOf d w h hp
+    have := instanceRunSched_all d (R6.drawnTokens shotOf w h) (R6.drawnTokens_waitOk shotOf w h) hp
+    exact ⟨this.1, by rw [this.2.2, R6.samples_eq]⟩
+
+/-- the history behind the seeded change C19-r5-3, as the model sees it: the first answer takes 2.7 s, so the second
+token (due at once) is overdue and dropped; the third is due at 3.0 s, the instance asks for it at 2.7 s, sleeps, and
+SHOOTS it. (All times in ns after an instant well after year 1.) -/
+def r6Demo : List Model.C04.Iter :=
+  let t : Int := 1700000000000000000
+  [ { env := { tok := some t, pick := t, now := t, arm := t, ret := t }, dur := 2700000000 },
+    { env := { tok := some t, pick := t + 2700000000, now := t + 2700000000, arm := t + 2700000000, ret := t + 2700000000 } },
+    { env := { tok := some (t + 3000000000), pick := t + 2700000000, now := t + 2700000000, arm := t + 2700000000,
+               ret := t + 3000000000 } } ]
+
+-- C19_slow_answer_costs_only_late_tokens: the hypotheses hold of a non-trivial history (a late token followed by one in
+-- the future), its second token is dropped, its third is shot
+example : Proofs.C04.ClockOK {} r6Demo ∧
+    ((Model.C04.runLoop .fresh true {} r6Demo).1.map Model.C04.Ev.isShoot) = [true, false, true] ∧
+    (R6.drawnTokens (fun _ => { reports := [] }) {} r6Demo).map (·.slowDown) = [false, true, false] := by decide
 
 end Pandora.Props.C19
